@@ -43,6 +43,7 @@ def _pmul(p, q):
 
 
 _ONE = {(): 1}
+SNAPPED = [0]     # number of float constants recorded as nearby small-denominator fractions
 
 
 class G:
@@ -74,7 +75,15 @@ class G:
         if isinstance(k, float) and k == int(k):
             return cls.const(int(k))
         if isinstance(k, float):
-            return cls.const(Fraction(k))
+            # Floats appear as constants of generated code (1/3! is printed as 0.1666...).  A float
+            # within relative 1e-12 of a fraction with denominator <= 10^6 is recorded as that
+            # fraction ("to rounding"); the number of snaps is reported in the evidence.
+            f = Fraction(k)
+            g = f.limit_denominator(10 ** 6)
+            if g != f and abs(float(g) - k) <= 1e-12 * max(1.0, abs(k)):
+                SNAPPED[0] += 1
+                f = g
+            return cls.const(f)
         # numpy scalars
         if hasattr(k, 'item'):
             return cls.const(k.item())
